@@ -7,6 +7,7 @@ func init() {
 		ID:    "C05",
 		Title: "Text outside Textwire syntax is emitted byte for byte; escapes, comments work",
 		Rules: []string{
+			"R-TEXTKEEP: a text token a parser function steps onto by itself becomes a statement (or a @slot follows) on every path; otherwise it is lost",
 			"R-TEXTDROP: every direct call of readChar lies where a token is open (after tokenBegins, before newToken, on every path; followed through the lexer's functions by summaries), or in skipWhitespace / skipComment / New",
 			"R-LEXMODE: every call in NextToken that can build a code-alphabet token (anything but HTML, EOF, ILLEGAL, {{ and directives) is dominated by !l.isHTML",
 			"R-TEXT: the text scanner writes every byte it consumes, removes only one byte under the escape flags, the escape test reads input[pos-1], and the literal flows unchanged through NextToken -> parseHTMLStmt -> HTMLStmt.String -> object.HTML -> output; a comment ends only at the constant --}}",
@@ -18,6 +19,7 @@ func init() {
 		Assumptions: trustedBase,
 		Run: func(m *Model, s *Sink) {
 			m.RunTextDrop(s, "R-TEXTDROP")
+			m.RunTextKeep(s, "R-TEXTKEEP")
 			m.RunDirMode(s, "R-DIRMODE")
 			m.RunLexMode(s, "R-LEXMODE")
 			m.RunTextFlow(s, "R-TEXT")
